@@ -402,7 +402,13 @@ pub fn plan_session(p: &SessionParams, pool: &Pool) -> (Plan, SessionMeta) {
             }
             "error-interleave" => {
                 let g = ws[sched.below(ws.len())].clone();
-                let e = error_req(sched.below(ERROR_REQS.len()));
+                // half of the time a fixed request known to fail half-way, otherwise any directed
+                // seed (most of them end in an error of some kind, each leaving by its own path)
+                let e = if pool.directed.is_empty() || sched.chance(1, 2) {
+                    error_req(sched.below(ERROR_REQS.len()))
+                } else {
+                    pool.directed[sched.below(pool.directed.len())].clone()
+                };
                 push(&mut b, &g, vec![], &mut sched, &mut keys, &mut fired, &mut delivered);
                 push(&mut b, &e, vec!["error-interleave"], &mut sched, &mut keys, &mut fired, &mut delivered);
                 push(&mut b, &g, vec!["redeliver-later"], &mut sched, &mut keys, &mut fired, &mut delivered);
